@@ -1,3 +1,7 @@
+#[cfg(squitterator_verif)]
+#[macro_use]
+pub mod verif_seam;
+
 mod arguments;
 mod counters;
 mod decoder;
